@@ -1106,7 +1106,7 @@ def object_oracle(c, r):
 
     def fl(t):
         return float(Fraction(t[0], t[1])) if isinstance(t, list) else float('nan')
-    changed = None
+    changed, sim_after = None, False
     for k, (a, o) in enumerate(zip(c['seq'], r['steps'])):
         where = f'step {k} ({a}' + (f', after {changed})' if changed else ', before the change)')
         if a in ('remove', 'droprows'):
@@ -1116,9 +1116,12 @@ def object_oracle(c, r):
             changed = a
             continue
         allowed = ['construction', 'current'] if changed else ['construction']
-        key = f"object-{a}-{'after-' + changed if changed else 'before-change'}"
+        key = f"object-{a}-{'after-' + changed if changed else 'before-change'}" + ('-after-simulate' if sim_after else '')
+        if a == 'sim' and changed:
+            sim_after = True
         if not o['ok']:
-            bad.append((f'object-exception-{a}', f"{where}: {o.get('exc')}: {o.get('msg')}", None, o))
+            bad.append((f'object-exception-{a}' + (f'-after-{changed}' if changed else ''),
+                        f"{where}: {o.get('exc')}: {o.get('msg')}", None, o))
             continue
         v = o['v']
         if a in ('ll', 'lld'):
@@ -1283,7 +1286,7 @@ def stream_panel_ll(ctx):
                            'table': {'pid': c['ids'], 'x': c['x'], 'y': c['y'], **({'hid': c['cols']['hid']} if hist == 'steps' else {})}},
                           exp, obs, how='./check C09 --replay <this file>')
         t = (coq_steps_case(c, r) if hist == 'steps' else coq_hist_case(c, r) if hist == 'bootstrap' else
-             coq_object_case(c, r) if hist == 'object' else coq_ll_case(c, r))
+             ('skip' if found else coq_object_case(c, r)) if hist == 'object' else coq_ll_case(c, r))
         if t == 'skip':
             continue
         if t is None:
